@@ -515,3 +515,12 @@ func hasSingleNode(t *tree.Tree) bool {
 	}
 	return false
 }
+
+func (s *shape) adjacent(u, v int) bool {
+	for _, x := range s.adj[u] {
+		if x == v {
+			return true
+		}
+	}
+	return false
+}
